@@ -51,6 +51,7 @@ type Exec struct {
 	callStack []string
 	finite    map[int][]int64
 	atDeclared map[string]bool
+	siteStack []token.Pos
 }
 
 type InputSym struct {
@@ -94,12 +95,26 @@ func (x *Exec) oblige(st *State, kind string, goal *Term, pos token.Pos, note st
 		return
 	}
 	name := x.oblName(kind)
+	posStr := posOf(x.prog.fset, pos)
+	// inlined callees: report the chain of call sites, outermost first
+	if len(x.siteStack) > 0 {
+		var chain []string
+		for _, sp := range x.siteStack {
+			if p := posOf(x.prog.fset, sp); p != "" {
+				chain = append(chain, p)
+			}
+		}
+		if posStr != "" {
+			chain = append(chain, posStr)
+		}
+		posStr = strings.Join(chain, " > ")
+	}
 	if goal != True {
-		x.obls = append(x.obls, &Obligation{Name: name, Kind: kind, Job: x.job.Name, NFact: st.nfact, PC: st.pc, Goal: goal,
-			Pos: posOf(x.prog.fset, pos), Note: note})
+		x.obls = append(x.obls, &Obligation{Name: name, Kind: kind, Job: x.job.Name, NFact: len(x.ctx.facts), PC: st.pc, Goal: goal,
+			Pos: posStr, Note: note})
 	} else {
-		x.obls = append(x.obls, &Obligation{Name: name, Kind: kind, Job: x.job.Name, NFact: st.nfact, PC: st.pc, Goal: goal,
-			Pos: posOf(x.prog.fset, pos), Note: note, Status: "proved", Solver: "trivial"})
+		x.obls = append(x.obls, &Obligation{Name: name, Kind: kind, Job: x.job.Name, NFact: len(x.ctx.facts), PC: st.pc, Goal: goal,
+			Pos: posStr, Note: note, Status: "proved", Solver: "trivial"})
 	}
 	x.ctx.assume(st, goal)
 }
@@ -981,6 +996,10 @@ func (x *Exec) step(fr *Frame, st *State, ins ssa.Instruction) {
 		if val.T == nil {
 			x.storeSpecial(fr, st, p, val)
 			return
+		}
+		// a pointer that is stored may later be read back with its type invariant assumed: check it here
+		if _, isPtr := val.Typ.Underlying().(*types.Pointer); isPtr {
+			x.checkInv(st, val, in.Pos(), "when stored")
 		}
 		x.store(st, p, val.T)
 	case *ssa.UnOp:
